@@ -352,8 +352,10 @@ def cli_names(ctx):
 
     tmp = tempfile.mkdtemp(prefix="c15cli")
     try:
-        for stem in ["prog", "my_prog", "my-prog", "-x", "9lives", "a.b", "UPPER", "x", "inkey", "ecb_cls", "a b", "é", "prog.", ".hidden"]:
-            path = os.path.join(tmp, stem + ".bas") if not stem.endswith(".") and not stem.startswith(".") else os.path.join(tmp, stem)
+        for stem in ["prog", "my_prog", "my-prog", "-x", "9lives", "a.b", "UPPER", "x", "inkey", "ecb_cls", "a b", "é", "prog.", ".hidden", "noext:hello", "noext:my-game", "noext:PROG_1", "noext:x"]:
+            bare = stem.startswith("noext:")
+            stem = stem.split(":")[-1]
+            path = os.path.join(tmp, stem + ".bas") if not bare and not stem.endswith(".") and not stem.startswith(".") else os.path.join(tmp, stem)
             with open(path, "w") as f:
                 f.write('10 PRINT "HI"\n')
             old = signal.signal(signal.SIGPROF, _alarm)
